@@ -22,6 +22,18 @@ CHECKS = {
     "C04": _expl("boundary monitor on tensorlib probability primitives vs mpmath (50 digits) with an error budget in roundings of the terms",
                  "Poisson log-mass/mass, Normal log-density/density, Normal CDF and the distribution objects are evaluated on directed argument tuples (zeros, subnormals, 1e8, 20 decades of sigma, +-38 sigma) on 4 backends x 2 precisions and judged against mpmath on the inputs as rounded.",
                  "K=16 roundings of the terms; absolute floor 16*min_normal; known finding: subnormal rates on XLA/TF.", "§3 C04"),
+    "C05": _expl("passive postcondition monitor on every fit/fixed_poi_fit (rebinding sweep) + adversarial better-point search, closed forms, configuration matrix",
+                 "Every fit the workload or pyhf itself makes (test statistics, Asimov generation, toys, limit scans) is checked for bounds, exactly held fixed parameters/POI and an honest objective; the driver's own fits are attacked with multi-start L-BFGS-B + Nelder-Mead, compared with closed forms, and compared across stitch x grad x {scipy, minuit} x 4 backends.",
+                 "Optimality is only refutable; margins 1e-4 (SciPy) / 2e-2 (MINUIT default tolerance); datasets drawn around the expectation only.", "§3 C05"),
+    "C08": _expl("monitor on hypotest/generate_asimov_data with closed-form counting models, a layout grammar over 16 flag sets, refusal rules and captured-(q,q_A) wiring",
+                 "Observed and expected CLs / p0 for signal-strength-only models are compared with the analytic asymptotic values; every flag combination is parsed against the documented tuple grammar for q, qtilde, q0 and for toy-based runs; the Asimov dataset is compared with the model expectation at the conditional fit; POI-less and fixed-POI tests must be refused; (q, q_A) captured from the real statistic calls must reproduce the reported p-values.",
+                 "Closed forms by bisection on the concave score in mpmath; toy runs judged for layout only.", "§3 C08"),
+    "C09": _expl("monitor on upper_limit/toms748_scan/linear_grid_scan and the inner hypotest calls; CLs re-evaluated at the returned limits",
+                 "For automatic scans the level must be bracketed within mu(1+-1e-3) at each checked curve and |CLs-level|<=1%; for grids each limit must lie in the crossing cell of the returned curve; expected limits ordered; returned per-point results re-evaluated; inner hypotest kwargs compared with the caller's; a different level must move the limit.",
+                 "Non-monotone or non-bracketing curves are skipped by a stated domain guard.", "§3 C09"),
+    "C13": _expl("monitor on shim(do_grad=True)['func'] vs Richardson finite differences of the non-grad objective",
+                 "The value-and-gradient function handed to optimisers is compared with the non-differentiating path and with 4th-order central differences component by component on jax, pytorch and tensorflow, with do_stitch on/off and fixed masks, at points in every interpolation regime; exactly on breakpoints one-sided stencils on both sides bound the component.",
+                 "Kinks of codes 0/1 at alpha=0 have no derivative and are recorded, not judged; 64-bit only.", "§3 C13"),
     "C06": _expl("postcondition monitor on the five test statistics, re-derived at the returned fitted parameters; closed forms",
                  "Each statistic call returns its fitted parameter vectors; the monitor recomputes 2NLL at them through the model and checks non-negativity, the max(0, difference) identity, the one-sided zeroing rules, the POI pinning, the closed form for counting models and q(muhat)=0.",
                  "Fits reporting failure are skipped; tolerances tied to measured SLSQP noise.", "§3 C06"),
